@@ -15,6 +15,7 @@ def dispatch (cfg : Cfg) (b : Block) : String :=
   match b.kind with
   | "gops" => (runGops b cfg.fixedReverse).line b.kind b.id "C19"
   | "dij" => (runDij b).line b.kind b.id "C18"
+  | "dijconc" => (runDijConc b).line b.kind b.id "C18"
   | "dfs" => (runDfs b).line b.kind b.id "C20"
   | "kahn" => (runKahn b).line b.kind b.id "C20"
   | "scc" => (runScc b).line b.kind b.id "C20"
